@@ -98,7 +98,7 @@ def r3(c):
          'the handler given to get_reply derives from handlers.get(unit_id) through Mutex::lock', 'dependence closure has %d items' % len(cl), reply.loc())
     ibc = one(b.calls(INTO_BC), 'into_broadcast_request')
     s = q.sem(b, execs.args[0])
-    c.ob('execute/request', s.kind == 'call' and s.cs is ibc and ':Some' in ''.join(s.proj), 'execute runs the BroadcastRequest returned by into_broadcast_request', repr(s), execs.loc())
+    c.ob('execute/request', s.kind == 'call' and s.cs is ibc and q.has_success(s.proj), 'execute runs the BroadcastRequest returned by into_broadcast_request', repr(s), execs.loc())
     some_bc = q.outcomes(b, ibc).get('Some', [])
     c.ob('execute/some', q.dominated_by_any(b, some_bc, execs.node), 'execute is dominated by the Some edge of into_broadcast_request', str(some_bc), execs.loc())
     # controls
